@@ -270,10 +270,10 @@ def run(ch, idx, tier):
             bump("probe:last_year_state_checked")
         except StopIteration:
             pass
-        crash_indices = list(range(1, N - 1))
+        crash_indices = list(range(0, N - 1))  # every grid year incl. the first (the whole trajectory must then be reproduced)
         exhaustive = True
         if name in HEAVY:
-            crash_indices = sorted({1 + ch.choose(f"crash_idx[{k}]", N - 2) for k in range(3)})
+            crash_indices = sorted({ch.choose(f"crash_idx[{k}]", N - 1) for k in range(3)})
             exhaustive = False
         sigs = []
         first_detail = {}
